@@ -174,7 +174,11 @@ func opAssert(env *LEnv, args *LVal) *LVal {
 			return env.Errorf("second argument is not a string: %v", formatStr.Type)
 		}
 	}
-	ok := env.Eval(test.Copy())
+	// The test is evaluated in a copy; Copy clears the seal, so the copy is
+	// sealed again like the tree it was taken from (see TextLoader).
+	form := test.Copy()
+	form.SealAST()
+	ok := env.Eval(form)
 	if ok.Type == LError {
 		return ok
 	}
